@@ -1,0 +1,15 @@
+//go:build verif
+
+// Machine-checked contracts for package tsservergen (read by /verif/govc as text).
+
+package tsservergen
+
+//@ func resolvePathParamFields(pathParams []string, method *protogen.Method) (fields []pathParamField, err error)
+
+//@ func (g *Generator) buildRPCRouteConfig(service *protogen.Service, method *protogen.Method) (r *rpcRouteConfig, err error)
+//@   ensures (err == nil) <==> (r != nil)
+//@   ensures verb: err == nil ==> r.httpMethod == spec.verbOf(method)
+//@   ensures path: err == nil ==> r.fullPath == spec.clientPath(service, method)
+//@   ensures vars: err == nil ==> r.pathParams == spec.pathVars(method)
+//@   ensures query: err == nil ==> r.queryParams == annotations.GetQueryParams(method.Input)
+//@   ensures body: err == nil ==> (r.hasBody <==> spec.isBodyVerb(spec.verbOf(method)))
